@@ -84,3 +84,18 @@ Theorem C06_store_app : forall i s1 s2 n s',
     n = n1 + n2 /\ s' = k1 ++ k2.
 Proof. exact gc_store_app. Qed.
 Print Assumptions C06_store_app.
+
+(* --- cache_odb (where directory objects are read from) and its algorithm ---
+   gc i reads the cache only through g_trees (its listings).  Every theorem above already has
+   the cache as a separate argument: Used i o / LoadFails i speak of `load (g_trees i)`, and of
+   ids whose name is g_alg i - the algorithm of the COLLECTED store.  Stated explicitly: *)
+Theorem C06_cache_alg_irrelevant : forall i a, gc (with_cache_alg i a) = gc i.
+Proof. exact gc_cache_alg_irrelevant. Qed.
+Print Assumptions C06_cache_alg_irrelevant.
+
+(* ids of any other algorithm than the collected store's (e.g. the cache's) protect nothing
+   and cause nothing: dropping them from `used` leaves the result - error kinds included - as is *)
+Theorem C06_other_alg : forall i,
+  gc (with_used i (filter (fun p => list_N_eqb (fst p) (g_alg i)) (g_used i))) = gc i.
+Proof. exact gc_other_alg. Qed.
+Print Assumptions C06_other_alg.
